@@ -68,12 +68,17 @@ const (
 // stored array for a property in language l (nil = absent)
 func stored(state int, prop string, l int, baseLen int) ([]string, bool) {
 	tag := prop[:1] + langCodes[l]
+	if prop == "body" || prop == "say_text" {
+		tag = prop[:2] + prop[len(prop)-1:] + langCodes[l]
+	}
 	mk := func(n int) []string {
 		out := make([]string, n)
 		for i := range out {
 			switch prop {
 			case "attachments":
 				out[i] = fmt.Sprintf("image/jpeg:http://x.io/%s%d.jpg", tag, i)
+			case "say_audio", "play_audio":
+				out[i] = fmt.Sprintf("http://x.io/%s%s%d.mp3", prop[:1], tag, i)
 			default:
 				out[i] = fmt.Sprintf("%s%d", tag, i)
 			}
@@ -97,7 +102,7 @@ func stored(state int, prop string, l int, baseLen int) ([]string, bool) {
 		return mk(baseLen + 1), true
 	default:
 		out := mk(baseLen + 1)
-		if prop == "text" || prop == "name" || prop == "category" {
+		if singleText[prop] {
 			// (entries of the other properties that evaluate to "" are dropped after the choice is made,
 			// which is not what C18 is about)
 			out[0] = ""
@@ -116,6 +121,7 @@ type config struct {
 	BaseAtts    []string            `json:"attachments"`
 	BaseQRs     []string            `json:"quick_replies"`
 	BaseArgs    []string            `json:"case_arguments"`
+	BaseAudio   string              `json:"say_audio_url"` // say_msg's base audio URL ("" = none)
 	Tr          map[string][][]string `json:"translations"` // prop -> per language index 2,3 and 1 (= the base language itself: a stale entry) -> stored (nil absent)
 	States      map[string][3]int   `json:"states"`
 }
@@ -141,15 +147,34 @@ const (
 	exit0UUID  = "66666666-6666-4666-8666-666666666660"
 	exit1UUID  = "66666666-6666-4666-8666-666666666661"
 	exit2UUID  = "66666666-6666-4666-8666-666666666662"
+	emailUUID  = "33333333-3333-4333-8333-333333333337"
+	sayUUID    = "33333333-3333-4333-8333-333333333338"
+	playUUID   = "33333333-3333-4333-8333-333333333339"
+	voiceFlowUUID = "11111111-1111-4111-8111-111111111113"
+	voiceNodeUUID = "22222222-2222-4222-8222-222222222228"
+	exitVoiceUUID = "66666666-6666-4666-8666-666666666667"
+	basePlayURL = "http://x.io/play.mp3"
 )
 
-var props = []struct{ name, item string }{
-	{"text", sendUUID}, {"attachments", sendUUID}, {"quick_replies", sendUUID},
-	{"arguments", caseUUID}, {"name", catBobUUID}, {"category", setresUUID},
+// name = key of config.Tr/States; item, prop = where the translation is stored in the localization; voice = the item
+// lives in the voice flow
+var props = []struct {
+	name, item, prop string
+	voice            bool
+}{
+	{"text", sendUUID, "text", false}, {"attachments", sendUUID, "attachments", false}, {"quick_replies", sendUUID, "quick_replies", false},
+	{"arguments", caseUUID, "arguments", false}, {"name", catBobUUID, "name", false}, {"category", setresUUID, "category", false},
+	{"subject", emailUUID, "subject", false}, {"body", emailUUID, "body", false},
+	{"say_text", sayUUID, "text", true}, {"say_audio", sayUUID, "audio_url", true}, {"play_audio", playUUID, "audio_url", true},
 }
+
+// single-text properties (read with GetText)
+var singleText = map[string]bool{"text": true, "name": true, "category": true, "subject": true, "body": true,
+	"say_text": true, "say_audio": true, "play_audio": true}
 
 func buildAssets(c *config) []byte {
 	loc := map[string]map[string]map[string][]string{}
+	vloc := map[string]map[string]map[string][]string{}
 	for _, p := range props {
 		for li, l := range trLangs {
 			arr := c.Tr[p.name][li]
@@ -157,13 +182,23 @@ func buildAssets(c *config) []byte {
 				continue
 			}
 			lc := langCodes[l]
+			if p.voice {
+				if vloc[lc] == nil {
+					vloc[lc] = map[string]map[string][]string{}
+				}
+				if vloc[lc][p.item] == nil {
+					vloc[lc][p.item] = map[string][]string{}
+				}
+				vloc[lc][p.item][p.prop] = arr
+				continue
+			}
 			if loc[lc] == nil {
 				loc[lc] = map[string]map[string][]string{}
 			}
 			if loc[lc][p.item] == nil {
 				loc[lc][p.item] = map[string][]string{}
 			}
-			loc[lc][p.item][p.name] = arr
+			loc[lc][p.item][p.prop] = arr
 			// the send_broadcast action carries the same three properties with the same translations
 			if p.item == sendUUID {
 				if loc[lc][bcastUUID] == nil {
@@ -184,6 +219,7 @@ func buildAssets(c *config) []byte {
 					map[string]any{"uuid": setresUUID, "type": "set_run_result", "name": "sr", "value": "v", "category": "Cat"},
 					map[string]any{"uuid": bcastUUID, "type": "send_broadcast", "text": c.BaseText, "attachments": c.BaseAtts, "quick_replies": c.BaseQRs,
 						"contacts": []any{map[string]any{"uuid": "77777777-7777-4777-8777-777777777771", "name": "Other"}}},
+					map[string]any{"uuid": emailUUID, "type": "send_email", "addresses": []string{"a@x.io"}, "subject": "subj", "body": "body"},
 				},
 				"exits": []any{map[string]any{"uuid": exit0UUID, "destination_uuid": node2UUID}},
 			},
@@ -202,7 +238,20 @@ func buildAssets(c *config) []byte {
 			},
 		},
 	}
-	flowList := []any{flow}
+	say := map[string]any{"uuid": sayUUID, "type": "say_msg", "text": "say"}
+	if c.BaseAudio != "" {
+		say["audio_url"] = c.BaseAudio
+	}
+	voice := map[string]any{
+		"uuid": voiceFlowUUID, "name": "C18 voice", "spec_version": "13.6.1", "language": langCodes[baseLang], "type": "voice",
+		"localization": vloc,
+		"nodes": []any{map[string]any{
+			"uuid": voiceNodeUUID,
+			"actions": []any{say, map[string]any{"uuid": playUUID, "type": "play_audio", "audio_url": basePlayURL}},
+			"exits":   []any{map[string]any{"uuid": exitVoiceUUID}},
+		}},
+	}
+	flowList := []any{flow, voice}
 	if c.ChildLang >= 0 {
 		// the parent localizes something first (a message), enters the child, and continues with the nodes above
 		nodes := flow["nodes"].([]any)
@@ -241,7 +290,21 @@ type observed struct {
 	RouterCat   string   `json:"router_category"`
 	RouterCatL  string   `json:"router_category_localized"`
 	Bcast       []bcastTr `json:"broadcast_translations"` // sorted by language index
+	Email       *[2]string `json:"email"`      // subject, body of the email_sent event (nil = skipped)
+	Say         *ivr       `json:"say_msg"`    // ivr_created of say_msg (nil = skipped)
+	Play        *ivr       `json:"play_audio"` // ivr_created of play_audio (nil = skipped)
+	Errors      int        `json:"error_events"`
 }
+
+type ivr struct {
+	Text  string `json:"text"`
+	Audio string `json:"audio_url"`
+	Lang  int    `json:"lang"`
+}
+
+type emailSvc struct{}
+
+func (emailSvc) Send(addresses []string, subject, body string) error { return nil }
 
 type bcastTr struct {
 	Lang int      `json:"lang"`
@@ -275,7 +338,7 @@ func run(c *config) (*observed, error) {
 	if err != nil {
 		return nil, err
 	}
-	eng := engine.NewBuilder().Build()
+	eng := engine.NewBuilder().WithEmailServiceFactory(func(flows.SessionAssets) (flows.EmailService, error) { return emailSvc{}, nil }).Build()
 	trigger := triggers.NewBuilder(env, flow.Reference(false), contact).Manual().Build()
 	session, sprint, err := eng.NewSession(sa, trigger)
 	if err != nil {
@@ -315,9 +378,24 @@ func run(c *config) (*observed, error) {
 				o.Bcast = append(o.Bcast, b)
 			}
 			sort.Slice(o.Bcast, func(i, j int) bool { return o.Bcast[i].Lang < o.Bcast[j].Lang })
+		case *events.EmailSentEvent:
+			if o.Email != nil {
+				return nil, fmt.Errorf("two email_sent events")
+			}
+			o.Email = &[2]string{ev.Subject, ev.Body}
 		case *events.ErrorEvent:
-			return nil, fmt.Errorf("error event: %s", ev.Text)
+			// the only action of this flow that can complain is send_email (empty subject or body: skipped)
+			if !strings.Contains(ev.Text, "email") {
+				return nil, fmt.Errorf("error event: %s", ev.Text)
+			}
+			o.Errors++
 		}
+	}
+	if (o.Email == nil) != (o.Errors == 1) || o.Errors > 1 {
+		return nil, fmt.Errorf("email sent=%v with %d error events", o.Email != nil, o.Errors)
+	}
+	if err := runVoice(c, env, sa, eng, o); err != nil {
+		return nil, err
 	}
 	if o.Bcast == nil {
 		return nil, fmt.Errorf("no broadcast_created event")
@@ -333,6 +411,72 @@ func run(c *config) (*observed, error) {
 		return nil, fmt.Errorf("unknown locale language")
 	}
 	return o, nil
+}
+
+// the voice flow (say_msg, play_audio), for a contact whose language is the one in force in the messaging run
+func runVoice(c *config, env envs.Environment, sa flows.SessionAssets, eng flows.Engine, o *observed) error {
+	flow, err := sa.Flows().Get(voiceFlowUUID)
+	if err != nil {
+		return err
+	}
+	contact, err := flows.NewContact(sa, flows.ContactUUID(uuids.NewV4()), flows.ContactID(8), "5", code(c.effLang()),
+		flows.ContactStatusActive, nil, time.Date(2020, 1, 1, 0, 0, 0, 0, time.UTC), nil, nil, nil, nil, nil, assets.PanicOnMissing)
+	if err != nil {
+		return err
+	}
+	ch := assets.NewChannelReference("99999999-9999-4999-8999-999999999991", "Voice")
+	trigger := triggers.NewBuilder(env, flow.Reference(false), contact).Manual().WithCall(ch, "tel:+12065551212").Build()
+	_, sprint, err := eng.NewSession(sa, trigger)
+	if err != nil {
+		return err
+	}
+	// say_msg runs first, play_audio second: an ivr_created with text (or an error mentioning "backdown") belongs to
+	// say_msg, one without text (or an error mentioning "audio URL evaluated") to play_audio
+	nerr := 0
+	for _, e := range sprint.Events() {
+		switch ev := e.(type) {
+		case *events.IVRCreatedEvent:
+			lang, _ := ev.Msg.Locale().Split()
+			m := &ivr{Text: ev.Msg.Text(), Lang: langIndex(string(lang))}
+			if len(ev.Msg.Attachments()) > 1 {
+				return fmt.Errorf("ivr message with %d attachments", len(ev.Msg.Attachments()))
+			}
+			for _, a := range ev.Msg.Attachments() {
+				if a.ContentType() != "audio" {
+					return fmt.Errorf("ivr attachment %q", a)
+				}
+				m.Audio = a.URL()
+			}
+			if m.Lang < 0 {
+				return fmt.Errorf("unknown ivr locale %q", ev.Msg.Locale())
+			}
+			// which action: play_audio's URLs are recognisable (base .../play.mp3, translations .../p…)
+			if m.Text == "" && (m.Audio == basePlayURL || strings.HasPrefix(m.Audio, "http://x.io/pp")) {
+				if o.Play != nil {
+					return fmt.Errorf("two play_audio messages")
+				}
+				o.Play = m
+			} else {
+				if o.Say != nil {
+					return fmt.Errorf("two say_msg messages")
+				}
+				o.Say = m
+			}
+		case *events.ErrorEvent:
+			nerr++
+		}
+	}
+	missing := 0
+	if o.Say == nil {
+		missing++
+	}
+	if o.Play == nil {
+		missing++
+	}
+	if nerr != missing {
+		return fmt.Errorf("voice flow: %d error events, %d skipped actions", nerr, missing)
+	}
+	return nil
 }
 
 // ---- direct oracle: the sentence of C18, in Go, independent of the Coq model -----------------------
@@ -384,7 +528,7 @@ func locLangs(c *config) []int {
 				continue
 			}
 			for _, p := range props {
-				if c.Tr[p.name][li] != nil {
+				if !p.voice && c.Tr[p.name][li] != nil {
 					out = append(out, l)
 					goto next
 				}
@@ -493,7 +637,56 @@ func oracle(c *config, o *observed, res *hx.Result) {
 			fail("broadcast-quick-replies-choice", fmt.Sprintf("%s quick replies %v, statement prescribes %v", langCodes[b.Lang], b.QRs, q))
 		}
 	}
-	res.OracleChecks += 7
+	// send_email: subject and body by the same chain, each on its own; skipped when one of them is empty
+	first := func(prop, native string) (string, int) { a, l := pick(c, prop, []string{native}); return a[0], l }
+	subj, _ := first("subject", "subj")
+	body, _ := first("body", "body")
+	switch {
+	case subj == "" || body == "":
+		if o.Email != nil {
+			fail("email-choice", fmt.Sprintf("email sent with subject %q body %q, statement prescribes subject %q body %q (skipped)", o.Email[0], o.Email[1], subj, body))
+		}
+	case o.Email == nil:
+		fail("email-choice", fmt.Sprintf("no email, statement prescribes subject %q body %q", subj, body))
+	case o.Email[0] != subj || o.Email[1] != body:
+		fail("email-choice", fmt.Sprintf("email subject %q body %q, statement prescribes %q / %q", o.Email[0], o.Email[1], subj, body))
+	}
+	// say_msg: text and audio URL by the chain, each on its own; the locale names the language of the text
+	st, stl := first("say_text", "say")
+	sa, _ := first("say_audio", c.BaseAudio)
+	switch {
+	case st == "" && sa == "":
+		if o.Say != nil {
+			fail("say-msg-choice", fmt.Sprintf("say_msg produced %+v, statement prescribes nothing to say", *o.Say))
+		}
+	case o.Say == nil:
+		fail("say-msg-choice", fmt.Sprintf("no ivr message, statement prescribes text %q audio %q", st, sa))
+	default:
+		if o.Say.Text != st || o.Say.Audio != sa {
+			fail("say-msg-choice", fmt.Sprintf("say_msg text %q audio %q, statement prescribes %q / %q", o.Say.Text, o.Say.Audio, st, sa))
+		}
+		if o.Say.Lang != stl {
+			fail("say-msg-locale", fmt.Sprintf("say_msg locale %q, its text is in %q", langCodes[o.Say.Lang], langCodes[stl]))
+		}
+	}
+	// play_audio: a text-less message; the locale names the language of its attachment
+	pa, pal := first("play_audio", basePlayURL)
+	switch {
+	case pa == "":
+		if o.Play != nil {
+			fail("play-audio-choice", fmt.Sprintf("play_audio produced %+v, statement prescribes an empty URL", *o.Play))
+		}
+	case o.Play == nil:
+		fail("play-audio-choice", fmt.Sprintf("no ivr message, statement prescribes audio %q", pa))
+	default:
+		if o.Play.Text != "" || o.Play.Audio != pa {
+			fail("play-audio-choice", fmt.Sprintf("play_audio text %q audio %q, statement prescribes audio %q", o.Play.Text, o.Play.Audio, pa))
+		}
+		if o.Play.Lang != pal {
+			fail("play-audio-locale", fmt.Sprintf("play_audio locale %q, its attachment is in %q", langCodes[o.Play.Lang], langCodes[pal]))
+		}
+	}
+	res.OracleChecks += 10
 }
 
 // ---- Coq emission ----------------------------------------------------------------------------------
@@ -514,13 +707,31 @@ func caseCoq(c *config, o *observed) string {
 	return fmt.Sprintf("{| k_clang := %s; k_allowed := %s; k_text := %s; k_atts := %s; k_qrs := %s; k_args := %s;\n"+
 		"     k_tr_text := %s; k_tr_atts := %s; k_tr_qrs := %s; k_tr_args := %s; k_tr_name := %s; k_tr_cat := %s;\n"+
 		"     k_o_text := %s; k_o_atts := %s; k_o_qrs := %s; k_o_lang := %s; k_o_setres := %s; k_o_matched := %s; k_o_catl := %s;\n"+
-		"     k_loc_langs := %s; k_o_bcast := %s |}",
+		"     k_loc_langs := %s; k_o_bcast := %s;\n"+
+		"     k_audio := %s; k_tr_subject := %s; k_tr_body := %s; k_tr_say_text := %s; k_tr_say_audio := %s; k_tr_play_audio := %s;\n"+
+		"     k_o_email := %s; k_o_say := %s; k_o_play := %s |}",
 		hx.N(c.effLang()), hx.List(c.Allowed, hx.N), hx.Str(c.BaseText), hx.List(c.BaseAtts, hx.Str), hx.List(c.BaseQRs, hx.Str), hx.List(c.BaseArgs, hx.Str),
 		trCoq(c, "text"), trCoq(c, "attachments"), trCoq(c, "quick_replies"), trCoq(c, "arguments"), trCoq(c, "name"), trCoq(c, "category"),
 		hx.Str(o.Text), hx.List(o.Atts, hx.Str), hx.List(o.QRs, hx.Str), hx.N(o.Lang), hx.Str(o.SetResCatL), hx.Bool(o.RouterCat == "Bob"), hx.Str(o.RouterCatL),
 		hx.List(locLangs(c), hx.N), hx.List(o.Bcast, func(b bcastTr) string {
 			return fmt.Sprintf("(%s, (%s, (%s, %s)))", hx.N(b.Lang), hx.Str(b.Text), hx.List(b.Atts, hx.Str), hx.List(b.QRs, hx.Str))
-		}))
+		}),
+		hx.Str(c.BaseAudio), trCoq(c, "subject"), trCoq(c, "body"), trCoq(c, "say_text"), trCoq(c, "say_audio"), trCoq(c, "play_audio"),
+		emailCoq(o.Email), ivrCoq(o.Say), ivrCoq(o.Play))
+}
+
+func emailCoq(e *[2]string) string {
+	if e == nil {
+		return "None"
+	}
+	return fmt.Sprintf("(Some (%s, %s))", hx.Str(e[0]), hx.Str(e[1]))
+}
+
+func ivrCoq(m *ivr) string {
+	if m == nil {
+		return "None"
+	}
+	return fmt.Sprintf("(Some (%s, (%s, %s)))", hx.Str(m.Text), hx.Str(m.Audio), hx.N(m.Lang))
 }
 
 const header = `From Coq Require Import List NArith Bool.
@@ -567,6 +778,9 @@ func main() {
 					c.BaseQRs = []string{}
 					if pres&2 != 0 {
 						c.BaseQRs = []string{"yes", "no"}
+					}
+					if k%2 == 1 {
+						c.BaseAudio = "http://x.io/base.mp3"
 					}
 					c.BaseArgs = []string{"1", "10"}
 					if k%3 == 1 {
@@ -627,6 +841,17 @@ func main() {
 					res.Eval(string(key), nontrivial)
 					res.Dist(fmt.Sprintf("msg_lang=%s", langCodes[obs.Lang]))
 					res.Dist(fmt.Sprintf("router_cat=%s", obs.RouterCat))
+					res.Dist(fmt.Sprintf("email_sent=%v", obs.Email != nil))
+					if obs.Say != nil {
+						res.Dist(fmt.Sprintf("say_lang=%s audio=%v text=%v", langCodes[obs.Say.Lang], obs.Say.Audio != "", obs.Say.Text != ""))
+					} else {
+						res.Dist("say_skipped")
+					}
+					if obs.Play != nil {
+						res.Dist(fmt.Sprintf("play_lang=%s", langCodes[obs.Play.Lang]))
+					} else {
+						res.Dist("play_skipped")
+					}
 					if k%1777 == 0 {
 						res.Sample(map[string]any{"config": c, "observed": obs})
 					}
